@@ -345,7 +345,7 @@ theorem unregNotify_inv {fuel : Nat} (hswf : ISwf (stoppedWaitFor fuel)) (hsn : 
       have hg : Tbl.getD s.notify (src, name) = list := Tbl.find_eq_getD_of_some hf
       have hne : Tbl.getD s.notify (src, name) ≠ [] := by rw [hg]; exact h.n.wfN.find_ne_nil hf
       simp only [unregisterTargets_eq_purge, wakeLoop]
-      have hmir : Mirror (Tbl.removeKey s.notify (src, name)) (Tbl.purge s.alive s.waitFor src name list []).1 := by
+      have hmir : TblMirror (Tbl.removeKey s.notify (src, name)) (Tbl.purge s.alive s.waitFor src name list []).1 := by
         have := h.tab.mir.purge_removeKey s.alive src name [] (fun l hl => h.waiters_alive src name l hl)
         rw [hg] at this; exact this
       have h1 : Inv C ((Tbl.purge s.alive s.waitFor src name list []).2.reverse ++ W) none
@@ -429,7 +429,7 @@ theorem uaRest_inv {fuel : Nat} (hswf : ISwf (stoppedWaitFor fuel)) (hsn : ISn (
     exact Ok.pure ⟨h, by simpa using hno⟩
   · simp only [killLoop]
     have hfr := uaTargets_frame s src
-    have hmir : Mirror (Tbl.removeOwner s.notify src)
+    have hmir : TblMirror (Tbl.removeOwner s.notify src)
         (Tbl.multiPurge s.alive s.waitFor src (Tbl.keysOf s.notify src) []).1 :=
       h.tab.mir.multiPurge_removeOwner h.n.wfN s.alive src [] (fun n l hl => h.waiters_alive src n l hl)
     have hWF := Tbl.multiPurge_WF s.alive src (Tbl.keysOf s.notify src) s.waitFor [] h.n.wfW
